@@ -799,7 +799,7 @@ func init() {
 				{Name: "endpoint_parameter_grid", N: 13 * 9, Fn: c09Endpoints},
 				{Name: "byte_mutations", N: c.Pick(44, 1100), Fn: c09Bytes},
 				{Name: "sp_metadata", N: c.Pick(6, 60), Fn: c09Metadata},
-				{Name: "requests_after_storage_faults", N: c.Pick(15, 60), Fn: c09AfterFault},
+				{Name: "requests_after_storage_faults", N: c.Pick(17, 68), Fn: c09AfterFault},
 				{Name: "tiny_payloads", N: c.Pick(4, 40), Fn: c09Tiny},
 			}
 			if c.Thorough {
